@@ -29,7 +29,8 @@ func init() {
 	core.RegisterMeta("C12", core.Meta{
 		Rule: "graphs from C11-style universes (without the dense meshes) whose certificates carry validity windows on a small grid (nested, disjoint, touching at the second, empty), " +
 			"SAN variants (none/DNS/wildcard/IP only/mixed case) and colliding serials; for every certificate (graph members and fresh outsiders): VerifyTime at NotBefore-1s, NotBefore, +1s, " +
-			"middle, NotAfter-1s, NotAfter, +1s of the certificate and of up to two other chain members; Name from {\"\", matching, case/trailing-dot variants, wildcard hits and misses, IP literals, mismatch}; " +
+			"middle, NotAfter-1s, NotAfter, +1s of the certificate and of up to two other chain members, plus up to 8 sub-second instants around the same boundaries " +
+			"(NotBefore+1ns, +500ms, +999999999ns, -1ns, NotAfter-1ns, -500ms, +1ns; some expressed in a non-UTC location), the reference deciding on the exact instant supplied; Name from {\"\", matching, case/trailing-dot variants, wildcard hits and misses, IP literals, mismatch}; " +
 			"3 of 13 OneCRL/CRLSet model kinds per certificate (listed by issuer+serial, same issuer other serial, other issuer same serial, blocked subject+key, near-miss blocks, " +
 			"CRLSet keyed by a parent's / a non-parent's SPKI hash, blocked parent SPKI, combinations, none), the interesting entries surrounded by decoy serials in ascending / descending / " +
 			"shuffled / duplicated order; each model reaches the verifier in one of three ways: wire encoding + Parse, the exported structs built directly in model order, or two parsed halves merged by appending. Non-trivial = the certificate has at least one walked chain; " +
@@ -245,6 +246,16 @@ func boundaryTimes(s *certSpec) []time.Time {
 	return []time.Time{nb.Add(-time.Second), nb, nb.Add(time.Second), mid, na.Add(-time.Second), na, na.Add(time.Second)}
 }
 
+// subSecondTimes are instants strictly inside the one-second cells around the validity
+// boundaries: the rule is NotBefore < t < NotAfter for the exact instant the caller supplies.
+func subSecondTimes(s *certSpec) []time.Time {
+	nb, na := s.notBefore(), s.notAfter()
+	return []time.Time{nb.Add(time.Nanosecond), nb.Add(500 * time.Millisecond), nb.Add(999999999 * time.Nanosecond), nb.Add(-time.Nanosecond),
+		na.Add(-time.Nanosecond), na.Add(-500 * time.Millisecond), na.Add(time.Nanosecond)}
+}
+
+var probeZones = []*time.Location{time.UTC, time.FixedZone("verif+0530", 5*3600+1800), time.FixedZone("verif-0800", -8*3600)}
+
 func chainSpecs(u *universe, ch x509.CertificateChain) ([]*certSpec, bool) {
 	out := make([]*certSpec, len(ch))
 	for i, c := range ch {
@@ -357,8 +368,8 @@ func checkVerify(c *core.Ctx, rng *rand.Rand, u *universe, g *verifier.Graph, ve
 	seenT := map[int64]bool{}
 	addTimes := func(ts []time.Time) {
 		for _, t := range ts {
-			if !seenT[t.Unix()] {
-				seenT[t.Unix()] = true
+			if !seenT[t.UnixNano()] {
+				seenT[t.UnixNano()] = true
 				times = append(times, t)
 			}
 		}
@@ -383,6 +394,26 @@ func checkVerify(c *core.Ctx, rng *rand.Rand, u *universe, g *verifier.Graph, ve
 	if len(times) > 16 {
 		times = times[:16]
 	}
+	nWhole := len(times)
+	// sub-second instants around the same boundaries: a seed-determined selection of up to 8,
+	// each verified with one of the revocation variants; some expressed in a non-UTC location
+	{
+		var sub []time.Time
+		whole := times
+		times = nil
+		addTimes(subSecondTimes(s))
+		for i := 0; i < len(members) && i < 2; i++ {
+			addTimes(subSecondTimes(members[i]))
+		}
+		sub, times = times, whole
+		rng.Shuffle(len(sub), func(i, j int) { sub[i], sub[j] = sub[j], sub[i] })
+		if len(sub) > 8 {
+			sub = sub[:8]
+		}
+		for _, t := range sub {
+			times = append(times, t.In(probeZones[rng.IntN(len(probeZones))]))
+		}
+	}
 
 	// revocation variants
 	kinds := rng.Perm(nRevKinds)[:3]
@@ -403,15 +434,25 @@ func checkVerify(c *core.Ctx, rng *rand.Rand, u *universe, g *verifier.Graph, ve
 
 	for ti, t := range times {
 		for vi, rv := range variants {
+			if ti >= nWhole && vi != ti%len(variants) {
+				continue // sub-second instants: one revocation variant each
+			}
 			name := ""
 			if r := (ti*3 + vi) % 4; r != 0 {
 				name = hosts[rng.IntN(len(hosts))]
 			}
 			caseID := fmt.Sprintf("%s.t%d.r%d", certID, t.Unix()-baseTime.Unix(), rv.kind)
+			if ns := t.Nanosecond(); ns != 0 {
+				caseID = fmt.Sprintf("%s.t%d+%dns.r%d", certID, t.Unix()-baseTime.Unix(), ns, rv.kind)
+				c.Count("sub_second_verify_times", 1)
+				if t.Location() != time.UTC {
+					c.Count("sub_second_verify_times_in_non_utc_location", 1)
+				}
+			}
 			if c.OnlyCase != "" && c.OnlyCase != caseID && c.OnlyCase != certID {
 				continue
 			}
-			extra := map[string]any{"verify_time": t.Format(time.RFC3339), "name": name, "revocation": rv.desc, "supplied_as": supplyName[rv.supply]}
+			extra := map[string]any{"verify_time": t.Format(time.RFC3339Nano), "name": name, "revocation": rv.desc, "supplied_as": supplyName[rv.supply]}
 			if rv.one != nil {
 				extra["onecrl_json"] = string(rv.one.encode())
 			}
@@ -436,7 +477,7 @@ func checkVerify(c *core.Ctx, rng *rand.Rand, u *universe, g *verifier.Graph, ve
 				continue
 			}
 			fail := func(key, format string, a ...any) {
-				c.Violation(key, fmt.Sprintf("%s at t=base%+ds name=%q %s: ", s.label(), t.Unix()-baseTime.Unix(), name, rv.desc)+fmt.Sprintf(format, a...), caseID, baseInput(extra))
+				c.Violation(key, fmt.Sprintf("%s at t=base%+ds+%dns (%s) name=%q %s: ", s.label(), t.Unix()-baseTime.Unix(), t.Nanosecond(), t.Format(time.RFC3339Nano), name, rv.desc)+fmt.Sprintf(format, a...), caseID, baseInput(extra))
 			}
 
 			// ---- partition and buckets ----
@@ -636,7 +677,7 @@ func checkVerify(c *core.Ctx, rng *rand.Rand, u *universe, g *verifier.Graph, ve
 				c.Count("results_with_several_parents", 1)
 			}
 			if len(W) > 0 {
-				c.Nontrivial(sdesc, s.label(), t.Unix(), name, rv.desc)
+				c.Nontrivial(sdesc, s.label(), t.UnixNano(), name, rv.desc)
 			}
 			if chainsOK && len(W) >= 2 && nb >= 2 && c.WantSample() {
 				c.Sample(map[string]any{"certificate": s.desc(), "t": t.Format(time.RFC3339), "name": name, "revocation": rv.desc,
